@@ -689,7 +689,7 @@ class LinearFilter(LinearFilterProperties):
   def __ne__(self, other):
     if isinstance(other, LinearFilter):
       return self.numpoly != other.numpoly or self.denpoly != other.denpoly
-    return False
+    return True
 
 
 class ZFilterMeta(AbstractOperatorOverloaderMeta):
